@@ -25,8 +25,11 @@ async fn file_size(file: &mut File) -> Result<u64, std::io::Error> {
     Ok(size)
 }
 
-async fn file_checksum(file: &mut File) -> Result<HashSum, std::io::Error> {
+// Checksum of the first size bytes of a file. A block device does not end where
+// what has been cloned to it ends.
+async fn file_checksum(file: &mut File, size: u64) -> Result<HashSum, std::io::Error> {
     file.seek(SeekFrom::Start(0)).await?;
+    let mut file = file.take(size);
     let mut output_hasher = Blake2b512::new();
     let mut buffer: Vec<u8> = vec![0; 4 * 1024 * 1024];
     loop {
@@ -322,10 +325,12 @@ where
 
     if opts.verify_output {
         info!("Verifying checksum of {}...", opts.output.display());
-        let sum = file_checksum(&mut output_file).await.context(format!(
-            "Failed to create checksum of {}",
-            opts.output.display()
-        ))?;
+        let sum = file_checksum(&mut output_file, archive.total_source_size())
+            .await
+            .context(format!(
+                "Failed to create checksum of {}",
+                opts.output.display()
+            ))?;
         let expected_checksum = archive.source_checksum();
         if sum == *expected_checksum {
             info!("Checksum verified Ok");
